@@ -584,3 +584,103 @@ def c20(ctx):
         res = json.load(open(res_path))
         for b in res["bad"][:5]:
             ctx.mismatches.append({"property": "C20", "sig": "pool:%s" % b[0], "want": "Get/Put discipline of Pools.tla", "got": json.dumps(b)})
+
+
+@prop("C18", level="other")
+def c18(ctx):
+    import numexact
+    ctx.rule = ("V: for stratified finite float64 bit patterns (uniform random, every binade at low/high/random mantissa, every power of ten "
+                "1e-323..1e308 with both neighbours, integers up to 2^63 scaled by powers of ten, every subnormal exponent, the 1e-6 and "
+                "1e21 switches) the text produced by Iter.MarshalJSON and Iter.StringCvt is compared byte for byte with encoding/json, "
+                "parsed back to identical bits, checked by TLC against FloatFmt!Layout (ES6 plain/exponent rule applied to the shortest "
+                "digits) on a 20k-event sample, and on an Apalache batch decided exactly: the printed decimal rounds (ties-to-even) to "
+                "the double and neither decimal with one digit fewer does. Distinct = distinct bit patterns.")
+    ctx.trusted = ["encoding/json and strconv.FormatFloat as reference for outputs outside the Apalache batch (the property names encoding/json as the reference)"]
+    ctx.explanation = ("Level 'other': float printing is a pure numeric function over 2^64 inputs; the TLA+ part specifies the layout rule "
+                       "(FloatFmt.tla, checked by TLC on recorded outputs) and the shortest-round-trip statement (big-integer inequalities "
+                       "discharged by Apalache on a stratified batch); everything else is a differential comparison with the reference "
+                       "implementation the property itself names.")
+    q = quick(ctx)
+    d = ctx.dir("ffmt")
+    trace = os.path.join(d, "trace.ndjson")
+    ctx.vh(["v-floatfmt", "-trace", trace, "-tracen", "20000" if q else "200000", "-n", "20000" if q else "2000000",
+            "-seed", str(ctx.seed), "-property", "C18"], timeout=7200)
+    files = {"trace.ndjson": open(trace, "rb").read()}
+    r = ctx.tlc("FloatFmt", files=files, workers=1, label="layout trace", check=False, timeout=3000)
+    res_path = os.path.join(r["dir"], "result.json")
+    if not r["ok"] or not os.path.exists(res_path):
+        raise Infra("FloatFmt trace validation did not complete:\n%s" % r["out"][-3000:])
+    res = json.load(open(res_path))
+    nlines = sum(1 for _ in open(trace))
+    if res["consumed"] != nlines:
+        raise Infra("FloatFmt consumed %d of %d events" % (res["consumed"], nlines))
+    for b in res["bad"][:20]:
+        ctx.mismatches.append({"property": "C18", "sig": "layout:" + b, "text": b, "want": "FloatFmt!Layout(shortest digits)", "got": "different text"})
+    recs = []
+    for line in open(trace):
+        x = json.loads(line)
+        recs.append(("".join(chr(c) for c in x["out"]), int(x["bits"], 16)))
+    import random
+    random.Random(ctx.seed).shuffle(recs)
+    checked, failing = numexact.decide_rounding(ctx, recs, 4 if q else 32, 8 if q else 30, timeout=400 if q else 1500,
+                                                case=numexact.shortest_case, tag="ShortestExact")
+    ctx.counters["apalache_shortest_roundtrip_cases"] = checked
+    log("[apalache] shortest round-trip decided for %d outputs, %d failing" % (checked, len(failing)))
+    for lit, bits in failing:
+        ctx.mismatches.append({"property": "C18", "sig": "apalache-shortest:%016x" % bits, "text": lit,
+                               "want": "the shortest decimal that rounds to %016x" % bits, "got": lit})
+    if checked == 0 and not failing:
+        raise Infra("no Apalache batch completed")
+
+
+@prop("C05", level="exploration")
+def c05(ctx):
+    ctx.rule = ("M: Pipeline.tla with the live constants: every call returns (liveness under weak fairness) for every combination of "
+                "sync/async path, stage-1 abort and stage-2 failure position, and the sync path fits the channel (the densest input the "
+                "threshold admits is measured on the running code). G: failure-path behaviours realised with documents that fail at a chosen "
+                "buffer, forced and free schedules (hang = violation). V: random bytes (lengths around 64 / 448-512 / 8 KiB), every "
+                "truncation of small valid documents, mutations, dense structural runs at every internal buffer length, nesting depth up to "
+                "20 000 (thorough 100 000), each on both kernels, both string modes, Parse and ParseND, with and without reuse, placed flush "
+                "against a PROT_NONE guard page before/after the input, under recover and a 30 s watchdog; on every result all traversal, "
+                "lookup, marshal and serialize APIs are executed under recover with a step budget; a dying process is re-run single-threaded "
+                "and the input reported. Non-trivial = input longer than one 64-byte block. Distinct by construction of the input list.")
+    ctx.trusted = ["reads outside the input are observed through guard pages, not proved"]
+    c = live_consts(ctx)
+    q = quick(ctx)
+    m = pipeline_model(ctx, c, "{0, 1, 6, 17}" if q else "{0, 1, 2, 6, 14, 15, 16, 17, 33, 40}", 1, "termination, live constants", timeout=3000)
+    d = ctx.dir("c05")
+    t1 = os.path.join(d, "sync.ndjson")
+    ctx.vh(["v-pipe", "-family", "sync", "-n", "40" if q else "400", "-trace", t1, "-seed", str(ctx.seed), "-property", "C05"], timeout=3000)
+    pipeline_trace_validate(ctx, c, t1, "C05")
+    t2 = os.path.join(d, "free.ndjson")
+    ctx.vh(["v-pipe", "-family", "free", "-n", "21" if q else "210", "-trace", t2, "-seed", str(ctx.seed + 3), "-property", "C05"], timeout=3000)
+    pipeline_trace_validate(ctx, c, t2, "C05")
+    fuzz_run(ctx, ["v-robust", "-seed", str(ctx.seed), "-n", "2500" if q else "60000", "-deep", "20000" if q else "100000", "-property", "C05"], "C05")
+    # memory: Interface() on 60 000 nested arrays (a 120 KB document) in a process limited to 12 GB of address space
+    import subprocess
+    binp = ctx.vh_bin()
+    p = subprocess.run(["bash", "-c", "ulimit -v 12000000; exec %s deep-interface -depth 60000 -out %s" % (binp, os.path.join(d, "deep60k.json"))],
+                       capture_output=True, text=True, timeout=600)
+    ctx.evaluations += 1
+    if p.returncode != 0:
+        if "out of memory" in p.stderr:
+            ctx.mismatches.append({"property": "C05", "sig": "deep-memory:Iter.Interface:depth=60000", "text": "'[' x 60000 ']' x 60000",
+                                   "want": "Interface() returns using memory proportional to the document",
+                                   "got": "fatal error: out of memory under a 12 GB address-space limit", "detail": p.stderr[:500]})
+        else:
+            raise Infra("deep-interface (60k) failed:\n%s" % p.stderr[:2000])
+    # unbounded recursion of Iter.Interface: one probe in its own process
+    depth = 2000000
+    rep = ctx.vh(["deep-interface", "-depth", str(depth)], allow_fail=True, merge=False, timeout=600)
+    if rep.get("failed"):
+        err = (rep.get("stderr_head") or "") + (rep.get("stderr") or "")
+        if "stack overflow" in err or "stack exceeds" in err:
+            ctx.mismatches.append({"property": "C05", "sig": "deep-recursion:Iter.Interface:stack-overflow", "text": "'[' x %d ']' x %d" % (depth, depth),
+                                   "want": "Interface() returns (a value or an error)",
+                                   "got": "fatal error: stack overflow (the process dies)", "detail": err[:600]})
+        else:
+            raise Infra("deep-interface probe failed for another reason:\n%s" % err[:3000])
+    else:
+        ctx.counters["deep_interface_depth_ok"] = depth
+    if not m["ok"] and not ctx.mismatches:
+        raise Infra("Pipeline.tla fails with the live constants %s but the real code terminated on every input tried:\n%s" % (c, m["out"][-2500:]))
